@@ -250,7 +250,7 @@ class Encoder:
                 nrm = A * A - B * B * P.const_val(rr[1])
                 if nrm != 0:
                     return {k2: v2 for k2, v2 in (((), A / nrm), (((rv, 1),), -B / nrm)) if v2}
-        content, prim = P.primitive(p)
+        content, prim = P.monic(p)
         k = P.key(prim)
         vi = self.inv_cache.get(k)
         if vi is None:
@@ -275,7 +275,7 @@ class Encoder:
                     return P.const(r)
                 if c < 0:
                     raise EncodeError("sqrt of negative constant")
-        content, prim = P.primitive(p)
+        content, prim = P.monic(p)
         s = None
         if n == 2 and content > 0:
             s = rat_sqrt(content)
